@@ -188,6 +188,8 @@ U_C20(zz) == {EqDecl([C0 |-> Class(DefaultOpts, <<U1("a"), IntF("_reserved", 2, 
           EqDecl([C0 |-> Class(DefaultOpts, <<U1("t"), RefSelF("v", EF("t"), <<[key |-> 0, alt |-> IntF("", 1, FALSE, "default")],
                                                                                [key |-> 1, alt |-> RefF("", "C1")]>>, "lambda", IntV(0)),
                                               MvField(EmF("tail"), [kind |-> "aligned", arg |-> SzConst(4), ref |-> "innermost-pkt"])>>), C1 |-> Sub1]),
+          \* fields named like methods of built-in containers (the library's own documentation has a field called `items`)
+          EqDecl([C0 |-> Class(DefaultOpts, <<U1("count"), RepCountF("items", U1("e"), SzField("count"), NoCond, 0), U1("keys"), DataF("values", SzConst(1))>>)]),
           \* long values: a declared default written as a tuple of 70 elements, a list of 70, 100 bytes (printing and comparing
           \* must not depend on how long or of which sequence type a value is)
           EqDecl([C0 |-> Class(DefaultOpts, <<U1("t"), [RepCountF("r", U1("e"), SzConst(70), NoCond, 0) EXCEPT !.dflt = [i \in 1..70 |-> IntV(i % 3)]] @@ [tupledflt |-> TRUE],
@@ -240,6 +242,8 @@ U_C19(zz) ==
      V1(<<U1("a"), WithDesc(IntF("s", 2, FALSE, "default"), [kind |-> "auto", e |-> EBin("add", EF("a"), EC(1))]),
           WithDesc(U1("k"), [kind |-> "autolen", of |-> "r"]), [RepCountF("r", U1("e"), SzField("k"), NoCond, 0) EXCEPT !.dflt = <<IntV(1), IntV(2)>>]>>,
         "subsets", FALSE),
+     \* fields whose names begin with an underscore (reserved / padding fields) are fields like any other: keywords name them
+     V1(<<WithDflt(U1("_reserved"), 7), WithDflt(DataF("_pad", SzConst(2)), <<65, 66>>), IntF("_mbz", 2, FALSE, "little"), U1("z")>>, "subsets", FALSE),
      \* the referenced class has fields of the SAME NAMES as the referring one, with other declared defaults
      VDecl([C0 |-> Class(DefaultOpts, <<WithDflt(U1("x"), 3), WithDflt(IntF("y", 2, TRUE, "little"), 0 - 2), RefF("s", "C1"),
                                         WithDflt(DataF("d", SzConst(2)), <<65, 66>>)>>), C1 |-> SubD,
